@@ -324,6 +324,28 @@ func (e *Engine) runInit(vc *VC, fn *ssa.Function, st *state) {
 		vc.errorf("package-level variable written outside init: %s", w)
 	}
 	nobl, nerr := len(vc.obls), len(vc.errs)
+	// package-level variables start zeroed
+	var gnames []string
+	for n := range fn.Pkg.Members {
+		gnames = append(gnames, n)
+	}
+	sort.Strings(gnames)
+	for _, n := range gnames {
+		g, ok := fn.Pkg.Members[n].(*ssa.Global)
+		if !ok {
+			continue
+		}
+		pt := g.Type().Underlying().(*types.Pointer).Elem()
+		if _, isArr := pt.Underlying().(*types.Array); isArr {
+			continue
+		}
+		vc.store(st, &Loc{Kind: LCell, Ref: e.globalRef(g), Cell: pt}, vc.S.zero(pt))
+	}
+	if g, ok := fn.Pkg.Members["init$guard"].(*ssa.Global); ok {
+		// the initialiser has not run yet
+		l := &Loc{Kind: LCell, Ref: e.globalRef(g), Cell: types.Typ[types.Bool]}
+		vc.store(st, l, "false")
+	}
 	fr := vc.newFrame(initFn, "init.", 1, []string{"init"})
 	rets := vc.run(fr, state{reach: "true", heap: st.heap})
 	vc.obls = vc.obls[:nobl]
